@@ -276,6 +276,9 @@ def _bind_call(fi, call):
         params = params[1:]
     b = dict(zip(params, call[1]))
     b.update(call[2])
+    if '**' in b or '*' in b or any(a.startswith('*') for a in call[1]):
+        # f(*seq) / f(**mapping): which slot a value reaches is not modelled - never guess
+        raise AnalysisError('call of %s at line %s passes */** arguments: argument binding not modelled' % (fi.qualname, call[3]))
     return b
 
 
@@ -304,6 +307,10 @@ def check_ids_rooted_at_self(rep, prog, rid):
         raise AnalysisError('PGPSignature.new: signature changed (%s)' % nf.params)
     P_TYPE, P_ALG, P_SIGNER = np_[0], np_[1], np_[3]
     kcls = prog.cls(K, 'PGPKey')
+    addnew = prog.cls('pgpy.packet.fields', 'SubPackets').find_method('addnew')
+    if addnew is None:
+        raise AnalysisError('SubPackets.addnew vanished')
+    a_params = addnew.params[1:]
 
     def is_new_site(n):
         return isinstance(n, ast.Call) and (dotted(n.func) or '').split('.')[-2:] == ['PGPSignature', 'new']
@@ -344,22 +351,19 @@ def check_ids_rooted_at_self(rep, prog, rid):
         st = {}
         for p, v, l, _ in s.stores:
             st.setdefault(p, []).append(v)
-        issuer = [c for c in s.calls if pkt is not None and c[0] == pkt + '.subpackets.addnew' and c[1][:1] == ["'Issuer'"]]
+        issuer = [_bind_call(addnew, c) for c in s.calls if pkt is not None and c[0] == pkt + '.subpackets.addnew' and
+                  (c[1][0] if c[1] else c[2].get(a_params[0])) == "'Issuer'"]
         ok = pkt is not None and st.get(pkt + '.pubalg') == [P_ALG] and st.get(pkt + '.sigtype') == [P_TYPE] and \
-            len(issuer) == 1 and issuer[0][2].get('_issuer') == P_SIGNER
+            len(issuer) == 1 and issuer[0].get('_issuer') == P_SIGNER
         rep.check(ok, rid, 'PGPSignature.new', 'issuer/pubalg/sigtype stored', 'the new signature records the given issuer id, algorithm and type',
                   where=nf.where, expected='packet.pubalg = %s, packet.sigtype = %s, Issuer subpacket _issuer = %s' % (P_ALG, P_TYPE, P_SIGNER),
                   found='packet %s: pubalg %s, sigtype %s, Issuer %s' % (pkt, st.get('%s.pubalg' % pkt), st.get('%s.sigtype' % pkt),
-                                                                          [c[2] for c in issuer]))
+                                                                          issuer))
     if not n_ok:
         raise AnalysisError('PGPSignature.new never returns')
     # ---- _sign: issuer fingerprint and key material
     f = prog.method(K, 'PGPKey', '_sign')
     rep.saw(fn=f)
-    addnew = prog.cls('pgpy.packet.fields', 'SubPackets').find_method('addnew')
-    if addnew is None:
-        raise AnalysisError('SubPackets.addnew vanished')
-    a_params = addnew.params[1:]
     fpr, signs, sinks = {}, {}, {}
     returning = 0
     for s in Interp(prog, Scenario(inline=noinline, join_unknown=True)).run(f):
@@ -367,8 +371,8 @@ def check_ids_rooted_at_self(rep, prog, rid):
         for c in s.calls:
             last = c[0].split('.')[-1]
             if last == 'addnew':
-                b = _bind_call(addnew, c)
-                if b.get(a_params[0]) == "'IssuerFingerprint'":
+                if (c[1][0] if c[1] else c[2].get(a_params[0])) == "'IssuerFingerprint'":
+                    b = _bind_call(addnew, c)
                     fpr.setdefault((c[3], b.get('_issuer_fpr'), b.get('_version'), b.get(a_params[1]) if len(a_params) > 1 else None), c)
             elif last == 'sign' and c[0].endswith('._key.sign'):
                 signs.setdefault((c[3], c[0]), c)
